@@ -1355,6 +1355,8 @@ const (
 	keyBreakInSwitch = "compile:break-in-switch-patches-wrong-instruction"
 
 	keyContinueInSwitchInit = "compile:continue-in-switch-with-init-patches-wrong-instruction"
+
+	keyContinueInSwitchTagless = "compile:continue-in-tagless-switch-patches-wrong-instruction"
 )
 
 // varName is freshName for a "var" declaration.
